@@ -226,6 +226,7 @@ type Env struct {
 	depth   int
 	globals func(name string) (binding, bool)
 	record  *readSet // dry run: records heap arrays read
+	inTrigger bool   // evaluating a quantifier pattern: map membership is the raw domain select
 }
 
 type readSet struct {
@@ -391,7 +392,9 @@ func (e *Env) Eval(x Expr) (string, *SType) {
 			var ts []string
 			valid := true
 			for _, t := range tr {
-				tt, _ := ne.Eval(t)
+				te := *ne
+				te.inTrigger = true
+				tt, _ := te.Eval(t)
 				if !validPattern(tt) {
 					valid = false
 				}
@@ -517,6 +520,7 @@ func (e *Env) evalBin(x *EBin) (string, *SType) {
 		}
 		if m, ok := types.Unalias(tb.Go).Underlying().(*types.Map); ok {
 			md, _ := e.w.mapArrs(m)
+			// raw domain lookup: specifications state separately that a map is non-nil (Go: nothing is in a nil map)
 			return "(select (select " + e.arr(md, e.cur) + " " + b + ") " + a + ")", stBool
 		}
 		e.fail("'in' on %s", tb)
@@ -578,7 +582,7 @@ func (e *Env) evalCall(x *ECall) (string, *SType) {
 			md, _ := e.w.mapArrs(u)
 			ks := S.SortOf(u.Key())
 			e.vc.needCard(ks)
-			return "(card!" + sanitize(ks) + " (select " + e.arr(md, e.cur) + " " + t + "))", stInt
+			return "(ite (= " + t + " 0) 0 (card!" + sanitize(ks) + " (select " + e.arr(md, e.cur) + " " + t + ")))", stInt
 		case *types.Slice:
 			return slLen(S.SortOf(ty.Go), t), stInt
 		case *types.Basic:
@@ -605,6 +609,21 @@ func (e *Env) evalCall(x *ECall) (string, *SType) {
 			e.fail("addr(%s): not a captured variable", id.Name)
 		}
 		return b.term, &SType{Go: types.NewPointer(b.boxT)}
+	case "valof":
+		// valof(p): the struct value a pointer refers to, assembled from the per-field heap arrays
+		t, ty := e.Eval(x.Args[0])
+		st, ok := isPtrToStruct(ty.Go)
+		if !ok {
+			e.fail("valof of %s", ty)
+		}
+		si := e.w.S.structInfo(st)
+		v := e.w.S.Zero(st)
+		idxs := sortedKeys(si.Fields)
+		for _, i := range idxs {
+			v = e.w.S.SetField(st, i, v, "(select "+e.arr(e.w.fieldArr(st, i), e.cur)+" "+t+")")
+		}
+		e.w.S.noteValof(si, len(idxs))
+		return v, &SType{Go: st}
 	case "deref":
 		t, ty := e.Eval(x.Args[0])
 		p, ok := types.Unalias(ty.Go).Underlying().(*types.Pointer)
@@ -694,7 +713,8 @@ func (e *Env) evalCall(x *ECall) (string, *SType) {
 		if e.depth > 40 {
 			e.fail("spec function recursion too deep at %s", x.Fn)
 		}
-		if fd.Opaque && e.record == nil && !(e.vc.reveal[fd.Name] || e.vc.revealAll || (e.vc.homePkg != "" && e.vc.homePkg == fd.PkgPath)) {
+		if e.record == nil && !e.vc.revealAll && (e.vc.hide[fd.Name] ||
+			(fd.Opaque && !(e.vc.reveal[fd.Name] || (e.vc.homePkg != "" && e.vc.homePkg == fd.PkgPath)))) {
 			return e.opaqueCall(fd, fctx, rt, x)
 		}
 		vars := map[string]binding{}
@@ -712,7 +732,7 @@ func (e *Env) evalCall(x *ECall) (string, *SType) {
 			}
 			vars[fd.Params[i].Name] = binding{term: t, typ: pt}
 		}
-		ne := &Env{w: e.w, vc: e.vc, cur: e.cur, old: e.old, pre: e.pre, vars: vars, ctx: fctx, seen: e.seen, depth: e.depth + 1, record: e.record}
+		ne := &Env{w: e.w, vc: e.vc, cur: e.cur, old: e.old, pre: e.pre, vars: vars, ctx: fctx, seen: e.seen, depth: e.depth + 1, record: e.record, inTrigger: e.inTrigger}
 		body, _ := ne.Eval(fd.Body)
 		if len(lets) > 0 {
 			body = "(let (" + strings.Join(lets, " ") + ") " + body + ")"
@@ -745,6 +765,12 @@ func validPattern(t string) bool {
 	switch head {
 	case "and", "or", "not", "=", "=>", "ite", "let", "forall", "exists", "<", "<=", ">", ">=", "+", "-", "*", "distinct", "!":
 		return false
+	}
+	// no connective, conditional or binder anywhere inside (z3 rejects such patterns)
+	for _, bad := range []string{"(ite ", "(let ", "(and ", "(or ", "(not ", "(=> ", "(= ", "(forall ", "(exists "} {
+		if strings.Contains(t, bad) {
+			return false
+		}
 	}
 	return true
 }
